@@ -4,12 +4,11 @@ CONSTANTS
   DEV_NoteCallBadTopicPanics = FALSE
   DEV_DelTopicBadNamePanics = FALSE
   DEV_LeaveOboSilent = FALSE
-  AlphaName = "all"
-  MaxLen = 1000
+  AlphaName = "q"
+  MaxLen = 3
   EmitTag = ""
 INIT Init
 NEXT Next
-VIEW StView
 INVARIANT NoViolation
 INVARIANT TypeOK
 CHECK_DEADLOCK FALSE
